@@ -122,7 +122,6 @@ template<class V> static void run(const VpCase* c, VpOutcome* o) {
     const bool scalar = op >= OP_SC0;
     const unsigned f = scalar ? op - OP_SC0 : op;
     if (scalar && W != 1) { o->status = 2; return; }
-    if (f < F_NEARBYINT) mode = 0;   // ceil/floor/trunc/round are specified independently of the mode; compared in the default mode
     FpEnv before, after;
     {
         RoundGuard g(mode);
@@ -189,7 +188,7 @@ extern "C" void vp_enum(int tier, uint64_t seed, uint32_t shard, uint32_t nshard
             if ((job++ % nshards) != shard) continue;
             if (op >= OP_SC0 && W != 1) continue;
             const unsigned f = op % F_COUNT;
-            for (int mode = 0; mode < (f >= F_NEARBYINT ? 4 : 1); ++mode) {
+            for (int mode = 0; mode < 4; ++mode) {
                 VpCase c; std::memset(&c, 0, sizeof c); c.target = t; c.op = op; c.s[0] = mode;
                 size_t fill = 0; uint64_t rot = seed + op + mode;
                 for (size_t i = 0; i < n; ++i) { c.v[0][(fill + rot) % W] = L[i]; if (++fill == W) { emit(&c, ctx); fill = 0; ++rot; } }
@@ -211,7 +210,8 @@ template<class V> static void sweep32(unsigned t, uint64_t seed, int tier, uint3
     const unsigned W = V::width;
     const uint64_t stride = tier ? 1 : 1031;
     for (unsigned f = 0; f < F_COUNT; ++f)
-        for (int mode = 0; mode < (f >= F_NEARBYINT ? 4 : 1); ++mode) {
+        for (int mode = 0; mode < 4; ++mode) {
+            if (!tier && f < F_NEARBYINT && mode != 0 && mode != (int)((seed + f) % 3) + 1) continue;   // quick: ceil/floor/trunc/round swept in nearest + one directed mode
             VpCase c; std::memset(&c, 0, sizeof c); c.target = t; c.op = f; c.s[0] = mode;
             bool failed = false;
             for (uint64_t base = ((seed * 7 + f) % stride) + (uint64_t)shard * W * stride; base < (1ull << 32) && !failed; base += (uint64_t)nshards * W * stride) {
